@@ -459,6 +459,13 @@ def lookup_global(self, m: ModuleInfo, name: str, st: State, node=None) -> Term:
                     outs.append(mk("opcaller", full.split(".")[1], tuple(C(a_.value) for a_ in x_.args)))
             if len(outs) == len(expr.elts):
                 return mk("tuple", tuple(outs))
+        if isinstance(expr, ast.Call) and not expr.keywords and expr.args and all(isinstance(a_, ast.Constant) for a_ in expr.args):
+            # NAME = methodcaller("acquire"): one operator-module accessor
+            fd = _dotted(expr.func)
+            rb_ = self.prog.resolve_symbol(rm, fd.split(".")[0]) if fd else None
+            full = (rb_[1] + fd[len(fd.split(".")[0]):]) if isinstance(rb_, tuple) and rb_[0] == "external" else None
+            if full in ("operator.methodcaller", "operator.attrgetter", "operator.itemgetter"):
+                return mk("opcaller", full.split(".")[1], tuple(C(a_.value) for a_ in expr.args))
         tgt = self.prog.resolve_expr_static(rm, expr) if isinstance(expr, (ast.Name, ast.Attribute)) else None
         if isinstance(tgt, FuncInfo):
             return self.fterm(tgt)
